@@ -116,7 +116,7 @@ func randomAncestor(rng *rand.Rand, nodes *ignorex.Node) *core.Entry {
 
 func c15() {
 	r := vk.Start("C15", "exploration")
-	n := r.Pick(300, 50000)
+	n := r.Pick(1500, 50000)
 	base := filepath.Join(r.Scratch(), "docker")
 	os.MkdirAll(base, 0o755)
 	var mu sync.Mutex
@@ -127,8 +127,12 @@ func c15() {
 		rng := r.Rand(fmt.Sprintf("case-%d", i))
 		c := dockerCase{Index: i}
 		c.Tree = ignorex.SmallTree(rng, c15Names, 30, 4, true)
-		c.Patterns = ignorex.DockerList(rng, c15Names, 5)
-		if !r.Quick() || i < 40 {
+		if rng.Intn(4) == 0 {
+			c.Patterns = ignorex.DockerList(rng, c15Names, 5)
+		} else {
+			c.Patterns = ignorex.DockerListForTree(rng, c15Names, c.Tree.SortedPaths(), 5)
+		}
+		if i < 40 || i%50 == 0 {
 			fmt.Printf("C15 case %d: patterns=%q entries=%d\n", i, c.Patterns, len(c.Tree))
 		}
 		r.Eval(1)
